@@ -34,7 +34,7 @@ except Exception:      # pragma: no cover
 RULE = ("random operator trees over the classic likelihood energies (Gaussian none/scaling/diagonal/sandwich inverse covariance, "
         "real/complex, with/without data; Poisson; Bernoulli; categorical; Student-t; inverse gamma; variable-covariance Gaussian "
         "real/complex, full Fisher or not; _SpecialGammaEnergy) wrapped by scaling, sums over shared/separate keys, point-wise and "
-        "matrix models and StandardHamiltonian, on RGSpace 1d/2d and UnstructuredDomain; positions generated inside each "
+        "matrix models (incl. a dense model from a single domain into the variable-covariance keys) and StandardHamiltonian, on RGSpace 1d/2d and UnstructuredDomain; positions generated inside each "
         "parameter range; non-trivial = every case (dimension >= 1); distinct by canonical JSON of the case")
 TRUSTED_BASE = [
     "Lean 4.33 kernel; axioms propext/Classical.choice/Quot.sound only (audited every run)",
@@ -86,7 +86,7 @@ def kinds_of(case):
 
 def wrappers_of(e, acc=None):
     acc = set() if acc is None else acc
-    if e["k"] in ("scale", "chain", "ham", "lin"):
+    if e["k"] in ("scale", "chain", "ham", "lin", "vmodel"):
         acc.add(e["k"])
         wrappers_of(e["e"], acc)
     elif e["k"] == "sum":
@@ -289,7 +289,7 @@ def _branch_stats(ctx, e):
         for f in e["f"].values():
             ctx.stat("f:" + f["f"])
         _branch_stats(ctx, e["e"])
-    elif k == "lin":
+    elif k in ("lin", "vmodel"):
         _branch_stats(ctx, e["e"])
     elif k == "gauss":
         ctx.stat("gauss:icov=" + e["icov"] + (",cplx" if e.get("cplx") else "") + (",nodata" if e.get("d") is None else ""))
@@ -375,6 +375,8 @@ def run(ctx):
     ensure("sgamma", lambda l: bool(l.get("cplx")), [False, True])
     ensure("studentt", lambda l: isinstance(l["theta"], list), [False, True])
     ensure("invgamma", lambda l: isinstance(l["alpha"], list), [False, True])
+    for _ in range(ctx.n(4, 40)):
+        cases.append(G.gen_vmodel_case(ctx.rng, small=True))
     for _ in range(ctx.n(50, 700)):
         cases.append(G.gen_case(ctx.rng, small=ctx.quick))
     B = 100
